@@ -391,6 +391,8 @@ Proof.
     destruct (hstep (closing g) c (Fwd i)) as [c'|] eqn:Hh; [|discriminate]. inv_some Hs. eapply inv_setc; eauto.
   - (* RTLeave *) destruct (getc g i) as [c|] eqn:Hg; [|discriminate].
     destruct (hstep (closing g) c (RTLeave i)) as [c'|] eqn:Hh; [|discriminate]. inv_some Hs. eapply inv_setc; eauto.
+  - (* RTLeaveUp *) destruct (getc g i) as [c|] eqn:Hg; [|discriminate].
+    destruct (hstep (closing g) c (RTLeaveUp i)) as [c'|] eqn:Hh; [|discriminate]. inv_some Hs. eapply inv_setc; eauto.
   - (* TDecide *) destruct (getc g i) as [c|] eqn:Hg; [|discriminate].
     destruct (hstep (closing g) c (TDecide i)) as [c'|] eqn:Hh; [|discriminate]. inv_some Hs. eapply inv_setc; eauto.
   - (* WrCall *) destruct (getc g i) as [c|] eqn:Hg; [|discriminate].
